@@ -28,6 +28,8 @@ pub struct Case {
     ops: usize,
     stim_seed: u64,
     style: u8,
+    /// program size setting NOSET (behaves like 'no program' for the supervision)
+    ps_notset: bool,
 }
 
 impl Case {
@@ -39,6 +41,7 @@ impl Case {
             Some(n) => J::from(n),
         });
         j.set("ops", J::from(self.ops));
+        j.set("ps_notset", J::Bool(self.ps_notset));
         j.set("stim_seed", J::Int(self.stim_seed as i64));
         j
     }
@@ -54,6 +57,7 @@ impl Case {
             ops: j.get("ops").and_then(|v| v.as_u64()).unwrap_or(1000) as usize,
             stim_seed: j.get("stim_seed").and_then(|v| v.as_i64()).unwrap_or(0) as u64,
             style: 9,
+            ps_notset: j.get("ps_notset").and_then(|v| v.as_bool()).unwrap_or(false),
         }
     }
 }
@@ -154,7 +158,8 @@ fn gen_case(k: usize, rng: &mut Rng) -> Case {
         3 | 4 => Some(255),
         _ => Some(rng.u8()),
     };
-    Case { init, ss: (k / 4 % 5) as u8, limit, ops: 500 + rng.usize(6000), stim_seed: rng.next(), style }
+    let ps_notset = rng.chance(1, 12);
+    Case { init, ss: (k / 4 % 5) as u8, limit, ops: 500 + rng.usize(6000), stim_seed: rng.next(), style, ps_notset }
 }
 
 fn touch_everything(m: &Machine) -> u64 {
@@ -182,9 +187,13 @@ fn touch_everything(m: &Machine) -> u64 {
 fn run_case(case: &Case, rep: &mut Report) -> Option<(String, String)> {
     let mut m = Machine::new(MachineConfig::default());
     m.raw_mut().set_stacksize(real::stacksize_of(case.ss));
-    m.raw_mut().set_programsize(match case.limit {
-        None => Programsize::Auto,
-        Some(n) => Programsize::Size(n),
+    m.raw_mut().set_programsize(if case.ps_notset {
+        Programsize::NotSet
+    } else {
+        match case.limit {
+            None => Programsize::Auto,
+            Some(n) => Programsize::Size(n),
+        }
     });
     m.raw_mut().bus_mut().memory_mut().copy_from_slice(&case.init.ram);
     for i in [0usize, 1, 2, 4] {
